@@ -364,3 +364,29 @@ def check(ctx):
 
     # ---- R15-f loop-side entry points ----------------------------------------------------------------------------------------------------------------------
     loop_entry_points(ctx, "R15-f")
+
+    # ---- R15-g the shared portal of BlockingPortalProvider -----------------------------------------------------------------------------
+    pe = ctx.fn("BlockingPortalProvider.__enter__", FT)
+    px = ctx.fn("BlockingPortalProvider.__exit__", FT)
+    inc = ctx.sites(pe, "self._leases += 1")
+    dec = ctx.sites(px, "self._leases -= 1")
+    dominates_all_exits(ctx, "R15-g", pe, "self._leases += 1", "every entry takes a lease", count=1)
+    dominates_all_exits(ctx, "R15-g", px, "self._leases -= 1", "every exit gives its lease back", count=1)
+    st_ = ctx.sites(pe, "self._portal_cm = start_blocking_portal($*A)")
+    if ctx.need("R15-g", pe, "`self._portal_cm = start_blocking_portal(...)`", len(st_), 1):
+        ctx.require_at("R15-g", pe, st_[0][0], [["self._portal_cm is None"]], instance="the shared portal is started only by the first lease")
+    for f, what in ((pe, "taken"), (px, "returned")):
+        site = (inc if f is pe else dec)
+        ok = bool(site) and lexically_inside(site[0][0], lambda x: isinstance(x, ast.With) and any(ast.unparse(i.context_expr) == "self._lock" for i in x.items), stop=f.node)
+        ctx.ob("R15-g", f, f"leases are {what} under the provider's lock (entries and exits come from different threads)", ok,
+               detail="" if ok else "the lease counter is changed outside `with self._lock`", by=("with self._lock",))
+    ex = [n for n in own_walk(px.node) if isinstance(n, ast.Call) and isinstance(n.func, ast.Attribute) and n.func.attr == "__exit__"]
+    if ctx.need("R15-g", px, "`portal_cm.__exit__(None, None, None)` when the last lease is returned", len(ex), 1):
+        c = ex[0]
+        ok = len(c.args) == 3 and all(isinstance(a, ast.Constant) and a.value is None for a in c.args)
+        ctx.ob("R15-g", px, "the shared portal is always shut down gracefully: the last leaver's own exception says nothing about calls other threads still have "
+               "running through it (they are awaited, not cancelled)", ok, node=stmt_of(c),
+               detail="" if ok else f"`{norm(stmt_of(c))}` forwards the leaving thread's exception: start_blocking_portal would then cancel every remaining call", by=("__exit__(None, None, None)",))
+        tk = ctx.sites(px, "$P = self._portal_cm")
+        if ctx.need("R15-g", px, "`portal_cm = self._portal_cm` for the last lease", len(tk), 1):
+            ctx.require_at("R15-g", px, tk[0][0], [["not self._leases"], ["0 == self._leases"]], instance="the portal is shut down only when no lease is left")
